@@ -26,7 +26,15 @@
         screen's own ids → C20_corr_from_space, C20_space_complete, C20_space_refuses, C20_space_guard
         (the average predictions themselves: C09_avg_is_mean)
   10. (anchor `calculate_mse`) → C20_calculate_mse
+   5b. several saves to one path: loading returns the LAST evaluation saved → C20_save_overwrites (every sequence of saves), C20_save_none
   harness-only for all clauses: IEEE rounding (tolerance), numpy summation order, pandas labelling of the matrix.
+  Regression (not a clause):
+   S7-C20 append mode + `require_dataset` keeps the old datasets: `savePathKeep` / `savesKeep` (Model/Metrics.lean); WITNESS
+          `C20_save_keep_existing_counterexample` (two saves of equal shapes: the path loads the FIRST; `savesTo` loads the second).
+   S6-C20 `mse()` as the unweighted mean of the per-chain MSEs: `mseChainMeans`; GENERAL `C20_mse_chain_means_one_chain` (one chain ⇒
+          equal to `mse`); WITNESS `C20_mse_chain_means_counterexample` (chains of 2 and 1 samples: 87/4 ≠ 50/3).
+   S5-C20 availability flag remembering only the last treatment of a row: `lastFlagStep` / `synergyStepLastFlag`; WITNESS
+          `C20_synergy_last_flag_counterexample` (combination (5, 3) with 5 unmeasured is reported instead of skipped; (3, 5) is skipped).
 -/
 import Batchie.Lemmas.MetricsSynergy
 import Batchie.Lemmas.PredictHolder
@@ -647,5 +655,99 @@ example : (⟨3, [[1, 2, 3], [4, 5, 6]], [0, 1], [0, 0, 7], [[233, 97], [115, 49
     ∧ ∀ n ∈ [[233, 97], [115, 49, 48]], NameOK n := by decide
 
 end reload
+
+
+/-! ## 8. one path, several saves (S7-C20) -/
+
+section saves
+open Batchie.Proto Batchie.Persist Batchie.Lifecycle
+
+private theorem savesTo_append {α : Type} (p : Option (EvalFile α)) (rs : List (EvalRec α)) (r : EvalRec α) :
+    savesTo p (rs ++ [r]) = some (saveEval r) := by
+  simp [savesTo, List.foldl_append, savePath]
+
+/-- For EVERY sequence of saves to one path (whatever the path held before, whatever was saved in
+    between, whatever their shapes), loading returns the LAST evaluation saved -- `save_h5` truncates.
+    (Induction over the list of saves is `List.foldl_append`.) -/
+theorem C20_save_overwrites {α : Type} (p : Option (EvalFile α)) (rs : List (EvalRec α)) (r : EvalRec α)
+    (hs : r.shapeOk = true) (hne : r.names ≠ []) (hn : ∀ n ∈ r.names, NameOK n) :
+    loadPath (savesTo p (rs ++ [r])) = .ok r := by
+  rw [savesTo_append]
+  exact C20_reload r hs hne hn
+
+/-- and a path nothing was saved to keeps what it held -/
+theorem C20_save_none {α : Type} (p : Option (EvalFile α)) : savesTo p [] = p := rfl
+
+def exR1 : EvalRec Int := ⟨2, [[1, 2]], [0], [0, 0], [[97]]⟩
+def exR2 : EvalRec Int := ⟨2, [[7, 9]], [5], [0, 1], [[98]]⟩
+
+/-- Regression S7-C20 (append mode + `require_dataset`): a second save of an evaluation with the
+    SAME dataset shapes leaves the first one in the file, silently -- the path then loads the FIRST
+    evaluation, not the last; the real definition (`savesTo`) loads the second. -/
+theorem C20_save_keep_existing_counterexample :
+    (saveEval exR1).sameLayout (saveEval exR2) = true
+    ∧ loadPath (savesKeep none [exR1, exR2]) = .ok exR1
+    ∧ loadPath (savesTo none [exR1, exR2]) = .ok exR2
+    ∧ exR1.preds ≠ exR2.preds := by
+  have h1 : exR1.shapeOk = true ∧ exR1.names ≠ [] ∧ ∀ n ∈ exR1.names, NameOK n := by decide
+  have h2 : exR2.shapeOk = true ∧ exR2.names ≠ [] ∧ ∀ n ∈ exR2.names, NameOK n := by decide
+  refine ⟨by decide, ?_, ?_, by decide⟩
+  · show loadPath (some (saveEval exR1)) = _
+    exact C20_reload exR1 h1.1 h1.2.1 h1.2.2
+  · exact C20_save_overwrites none [exR1] exR2 h2.1 h2.2.1 h2.2.2
+
+end saves
+
+/-! ## 9. Regressions S5-C20 and S6-C20 (not clauses) -/
+
+section regress
+variable {R : Type} [Field R]
+
+private theorem maskFilter_all_true {β : Type} (r : List β) (m : List Bool) (hl : m.length = r.length) (hm : ∀ b ∈ m, b = true) :
+    maskFilter r m = r := by
+  induction r generalizing m with
+  | nil => cases m <;> rfl
+  | cons a r ih =>
+    cases m with
+    | nil => simp at hl
+    | cons b m =>
+      have hb : b = true := hm b (by simp)
+      subst hb
+      simp only [maskFilter, if_true]
+      rw [ih m (by simpa using hl) (fun c hc => hm c (by simp [hc]))]
+
+/-- GENERAL (S6-C20): with ONE chain the mean of the per-chain MSEs is the overall MSE -- which is why
+    the seeded rewrite of `mse()` passes every single-chain evaluation -/
+theorem C20_mse_chain_means_one_chain (preds : List (List R)) (obs : List R) (chains : List Int) (c : Int)
+    (hall : ∀ x ∈ chains, x = c) (hK : ∀ r ∈ preds, r.length = chains.length) :
+    mseChainMeans preds obs chains [c] = mse preds obs := by
+  have hsel : selectCols preds (chains.map (fun x => x == c)) = preds := by
+    unfold selectCols
+    conv_rhs => rw [← List.map_id preds]
+    apply List.map_congr_left
+    intro r hr
+    apply maskFilter_all_true
+    · simp [hK r hr]
+    · intro b hb
+      obtain ⟨x, hx, rfl⟩ := List.mem_map.mp hb
+      simp [hall x hx]
+  simp [mseChainMeans, chainMse, hsel, mse, Metrics.mean, sumL, ofCount_eq]
+
+end regress
+
+/-- Regression S6-C20: chains of unequal length ({0,1} and {2}): the mean of the chain MSEs is 87/4, the
+    mean squared error over all (experiment, posterior sample) pairs is 50/3 (`C20_mse`) -/
+theorem C20_mse_chain_means_counterexample :
+    mseChainMeans exPreds exObs exChains [0, 4] = 87 / 4 ∧ mse exPreds exObs = 50 / 3 := by
+  refine ⟨by decide +kernel, by decide +kernel⟩
+
+/-- Regression S5-C20: agent 5 has no single-agent measurement, agent 3 has (effect 1/2): the real loop
+    body (`synergyStep`, lenient) skips the combination (5, 3), the last-flag variant reports it with the
+    product of the AVAILABLE effects only; `C20_synergy_bliss` is the positive statement for `synergy` -/
+theorem C20_synergy_last_flag_counterexample :
+    (synergyStep [((0, -1), (1 : Rat)), ((0, 3), 1 / 2)] false [] (0, [5, 3], 1 / 4)).toOption = some []
+    ∧ synergyStepLastFlag [((0, -1), (1 : Rat)), ((0, 3), 1 / 2)] [] (0, [5, 3], 1 / 4) = [(0, [5, 3], 1 / 4)]
+    ∧ synergyStepLastFlag [((0, -1), (1 : Rat)), ((0, 3), 1 / 2)] [] (0, [3, 5], 1 / 4) = [] := by
+  refine ⟨by decide +kernel, by decide +kernel, by decide +kernel⟩
 
 end Batchie.Props.C20
